@@ -23,8 +23,9 @@ RULE = ("trees: a small exhaustive family (all leaves with name/value of length 
 TRUSTED = ["model: C01.serKV / C01.step / C01.parseToks (lean/Srctools/Model/C01.lean) on top of the shared tokenizer model "
            "Tok.run (Model/Tok.lean); which fields _serialise escapes and its text templates are regenerated from "
            "keyvalues.py by tools/gen_kvser.py (Gen/Kvser.lean), tokenizer tables by tools/gen_tok.py",
-           "chunk independence of the tokenizer (str / chunk list / file object give the same token stream) is property "
-           "C03's theorem; here it is only exercised by the differential run",
+           "chunked / file-object input: C01_roundtrip_chunks composes C01_roundtrip with C03's refinement theorem "
+           "(TokC.C03_run_eq_abstract, lean/Srctools/Props/C03.lean) - the concrete chunk-cursor model TokC is tied to the "
+           "implementation by C03's correspondence; here str / chunk list / io.StringIO are exercised differentially",
            "str.casefold is modelled character-wise through a table sent by the harness"]
 NOT_MODELLED = ['_tokenizer.pyx control flow', 'Keyvalues.parse given an already constructed BaseTokenizer',
                 'filename handling of errors', 'Keyvalues.export (deprecated writer)']
